@@ -5,7 +5,9 @@ package agent
 // C09: the agent disk cache survives restarts and crashes without corruption.
 //
 // Model checking of the real DiskBucketStorage over a real scratch directory:
-//   - explicit-state BFS (mc.BFS) over operation histories {put, get, erase, readNextTail, restart} on two shards;
+//   - explicit-state BFS (mc.BFS) over operation histories {put, get, erase, readNextTail, restart} on two shards
+//     (get both as observer of every id in every state and as operation get(id, stored second | another second):
+//     answered or refused, a get changes nothing);
 //   - for the final call of every explored transition the directory is snapshotted before and after, the bytes
 //     the call wrote are recovered from the diff, and the call is re-applied torn at EVERY byte offset (every
 //     prefix of the appended bytes in issue order, every prefix of the overwritten bytes of the erase marker,
@@ -56,6 +58,10 @@ const (
 	c09Tail
 	c09Restart
 	c09Clock // virtual clock +1 h (only when disk_cache.go runs on the harness's clock seam)
+	// GetBucket(shard, id, t) as an operation of the history: t is the second the id was stored under (wrong=false)
+	// or the other second of the alphabet (wrong=true; for ids that are not live: 100 / 101). The statement makes
+	// get an operation that neither writes nor erases: answered or refused, the reference does not change.
+	c09Get
 )
 
 // c09ClockBase is the virtual instant every execution starts at (2026-01-02 03:04:05 UTC).
@@ -67,6 +73,7 @@ type c09Op struct {
 	sec   uint32
 	size  int
 	id    int64
+	wrong bool // c09Get: ask with a second that is not the one the id was stored under
 }
 
 func (o c09Op) String() string {
@@ -79,6 +86,11 @@ func (o c09Op) String() string {
 		return fmt.Sprintf("readNextTail(shard=%d)", o.shard)
 	case c09Clock:
 		return "clock+1h"
+	case c09Get:
+		if o.wrong {
+			return fmt.Sprintf("get(shard=%d,id=%d,second=other-than-stored)", o.shard, o.id)
+		}
+		return fmt.Sprintf("get(shard=%d,id=%d,second=stored)", o.shard, o.id)
 	}
 	return "restart"
 }
@@ -293,7 +305,7 @@ func (w *c09World) destroy() {
 func (w *c09World) shardDir(s int) string { return filepath.Join(w.dir, fmt.Sprint(s)) }
 
 func (w *c09World) applicable(o c09Op) bool {
-	if o.kind == c09Erase {
+	if o.kind == c09Erase || o.kind == c09Get {
 		return o.id <= w.sh[o.shard].lastID+1 // lastID+1 stands for every id that was never handed out
 	}
 	return true
@@ -419,6 +431,54 @@ func (w *c09World) apply(o c09Op, full bool) *c09Viol {
 	case c09Clock:
 		c09time.Advance(time.Hour)
 		return nil // nothing observable changes until the next put
+	case c09Get:
+		r := w.sh[o.shard]
+		rec := r.known[o.id]
+		stored := uint32(100)
+		if rec != nil {
+			stored = rec.sec
+		}
+		ask := stored
+		if o.wrong {
+			ask = 201 - stored // 100 <-> 101: the other second of the alphabet (other live seconds may carry it)
+		}
+		var pre c09Snap
+		if full {
+			pre = c09TakeSnap(w.shardDir(o.shard), "")
+		}
+		data, err := w.d.GetBucket(o.shard, o.id, ask, &w.pad)
+		switch {
+		case rec == nil && err == nil:
+			for _, x := range r.recs {
+				if x.erased && x.sec == ask && bytes.Equal(x.data, data) {
+					return fail("get-returns-erased-second", "GetBucket(id %d, second %d) returned erased second %d", o.id, ask, ask)
+				}
+			}
+			return fail("get-returns-data-for-unknown-id", "GetBucket(id %d, second %d) succeeded for an id that is not live", o.id, ask)
+		case rec != nil && !o.wrong && err != nil:
+			return fail("get-fails-on-live-second", "GetBucket(id %d, second %d) failed: %v", o.id, ask, c09Stable(err))
+		case rec != nil && err == nil && !bytes.Equal(data, rec.data):
+			// (whether a get that names another second than the stored one must be refused is not stated; if it is
+			// answered, the bytes must be the ones that were put under this id)
+			return fail("get-returns-corrupted-data", "GetBucket(id %d, second %d) returned %d bytes that differ from the %d bytes put", o.id, ask, len(data), len(rec.data))
+		}
+		// the reference does not change: a get is not an erase, whether it was answered or refused
+		if full {
+			how := "answered"
+			if err != nil {
+				how = "refused"
+			}
+			if rec != nil {
+				again, err2 := w.d.GetBucket(o.shard, o.id, stored, &w.pad)
+				if err2 != nil || !bytes.Equal(again, rec.data) {
+					return fail(how+"-get-drops-second", "second %d (id %d, %d bytes) was put and not erased, but after a %s GetBucket(id %d, second %d) the cache no longer returns it: GetBucket(id %d, second %d) -> %v, %d bytes", rec.sec, o.id, len(rec.data), how, o.id, ask, o.id, stored, c09Stable(err2), len(again))
+				}
+			}
+			post := c09TakeSnap(w.shardDir(o.shard), "")
+			if !c09SameSnap(pre, post) {
+				return fail(how+"-get-modifies-files", "a %s GetBucket(id %d, second %d) changed the files of the shard (%d file(s) before, %d after)", how, o.id, ask, len(pre), len(post))
+			}
+		}
 	case c09Restart:
 		if err := w.d.Close(); err != nil {
 			return fail("close-error", "Close failed: %v", c09Stable(err))
@@ -900,6 +960,27 @@ func c09BuildImages(o c09Op, pre, post c09Snap, keepDir string, preExp, postExp 
 	return imgs
 }
 
+// c09SameSnap: same file names with the same bytes (big files: same length and headers).
+func c09SameSnap(a, b c09Snap) bool {
+	if len(a) != len(b) {
+		return false
+	}
+	for n, x := range a {
+		y, ok := b[n]
+		if !ok || x.size != y.size || x.big != y.big {
+			return false
+		}
+		if x.big {
+			if !c09SameHdrs(x.hdrs, y.hdrs) {
+				return false
+			}
+		} else if !bytes.Equal(x.data, y.data) {
+			return false
+		}
+	}
+	return true
+}
+
 func c09SameHdrs(a, b []c09Disk) bool {
 	if len(a) != len(b) {
 		return false
@@ -1036,6 +1117,20 @@ func c09CheckImage(img *c09Image, keepDir string, bigHdrs map[string][]c09Disk) 
 			got = append(got, gotT{sec, append([]byte(nil), data...), id})
 		}
 		fmt.Fprintf(&sum, "(%d:%d)", sec, len(data))
+		if len(data) <= 4096 {
+			// get is an operation of the history after the crash as well: a get of the re-read id that names another
+			// second (answered or refused) must leave the second where it is
+			kept := got[len(got)-1].data
+			_, errW := sh.GetBucket(id, sec+1, &pad)
+			again, err2 := sh.GetBucket(id, sec, &pad)
+			if err2 != nil || !bytes.Equal(again, kept) {
+				how := "answered"
+				if errW != nil {
+					how = "refused"
+				}
+				return fail(how+"-get-drops-second", "re-read second %d (id %d, %d bytes) is no longer returned after a %s GetBucket(id %d, second %d): %v", sec, id, len(kept), how, id, sec+1, c09Stable(err2)), sum.String()
+			}
+		}
 	}
 	match := func(g gotT, r *c09Rec) bool { return g.sec == r.sec && bytes.Equal(g.data, r.data) }
 	missing := func(r *c09Rec) *c09Viol {
@@ -1251,7 +1346,9 @@ func c09Run(rep *mc.Report, part *c09Part, cnt *c09Counters, hist []int) mc.Step
 			continue
 		}
 		// final call: snapshot, apply, diff, tear
-		if o.kind == c09Restart || o.kind == c09Clock {
+		if o.kind == c09Restart || o.kind == c09Clock || o.kind == c09Get {
+			// (a get must not touch the disk - apply compares the directory before and after - so there is no
+			// write to tear; the image of the unchanged directory was audited by the transition that produced it)
 			if v := w.apply(o, true); v != nil {
 				return bad(v)
 			}
@@ -1361,6 +1458,11 @@ func c09CoreOps(maxID int, clock bool) []c09Op {
 	for s := 0; s < c09NumShards; s++ {
 		ops = append(ops, c09Op{kind: c09Tail, shard: s})
 	}
+	for s := 0; s < c09NumShards; s++ {
+		for id := 1; id <= maxID; id++ {
+			ops = append(ops, c09Op{kind: c09Get, shard: s, id: int64(id)}, c09Op{kind: c09Get, shard: s, id: int64(id), wrong: true})
+		}
+	}
 	ops = append(ops, c09Op{kind: c09Restart})
 	if clock {
 		ops = append(ops, c09Op{kind: c09Clock})
@@ -1375,6 +1477,7 @@ func c09RotOps(maxID int) []c09Op {
 	}
 	for id := 1; id <= maxID; id++ {
 		ops = append(ops, c09Op{kind: c09Erase, shard: 0, id: int64(id)})
+		ops = append(ops, c09Op{kind: c09Get, shard: 0, id: int64(id)}, c09Op{kind: c09Get, shard: 0, id: int64(id), wrong: true})
 	}
 	return append(ops, c09Op{kind: c09Tail, shard: 0}, c09Op{kind: c09Restart})
 }
@@ -1416,11 +1519,11 @@ func TestVerifC09(t *testing.T) {
 	rotDepth := mc.Pick(2, 3)
 	bigLen := fileRotateSize - 2*c09Header - 1 // a 1-byte put then fills the file to exactly fileRotateSize
 	rep.Rule = "explicit-state BFS over operation histories on the real DiskBucketStorage in a real directory; state = directory bytes + all shard fields + reference; " +
-		"in every state GetBucket of every id is compared; for the final call of every transition that changed the disk, every crash image (each byte prefix of the appended header+body, each prefix of the erase-marker overwrite, " +
+		"in every state GetBucket of every id is compared, and GetBucket(id, stored second | other second) is itself an operation of the history (answered or refused it must leave files, sizes and every later answer unchanged); for the final call of every transition that changed the disk, every crash image (each byte prefix of the appended header+body, each prefix of the erase-marker overwrite, " +
 		"each point between file creation/removal, plus length-first zero-tail images of the body) is reopened through makeDiscCacheShard/ReadNextTailSecond/GetBucket and compared with the reference list. " +
 		"non-trivial = the shard of the final call holds at least two seconds or an erased second (operations interact through the same file)"
 	rep.Bounds["core_depth"] = coreDepth
-	rep.Bounds["core_alphabet"] = "put(shard 0/1, (second,payload) in {(100,0 B),(100,37 B),(101,1 B),(101,37 B)}), erase(shard,id<=depth-1), readNextTail(shard), restart, clock+1h; GetBucket(every id) as observer in every state"
+	rep.Bounds["core_alphabet"] = "put(shard 0/1, (second,payload) in {(100,0 B),(100,37 B),(101,1 B),(101,37 B)}), erase(shard,id<=depth-1), readNextTail(shard), get(shard,id<=depth-1,second in {stored, the other one}), restart, clock+1h; GetBucket(every id) as observer in every state; in every crash image each re-read second is also asked for with another second"
 	rep.Bounds["file_rotate_size"] = fileRotateSize
 	rep.Bounds["clock_seam_active"] = seam
 	rep.Assume("torn-write model: bytes reach the file in the order the code issues its WriteAt calls (header, then body); a crash leaves a byte prefix; in-place overwrite of the erase marker leaves a prefix of the overwritten bytes")
@@ -1438,7 +1541,7 @@ func TestVerifC09(t *testing.T) {
 		// fallback when fileRotateSize is the real 50 MB: one genuinely large second makes rotation by size reachable
 		rep.Bounds["rot_depth_after_prefix"] = rotDepth
 		rep.Bounds["rot_prefix"] = fmt.Sprintf("put(shard 0, second 100, %d B) = fileRotateSize-41", bigLen)
-		rep.Bounds["rot_alphabet"] = "put(second 101, payload 0/1/37 B), erase(id), readNextTail, restart on shard 0; get(every id) as observer"
+		rep.Bounds["rot_alphabet"] = "put(second 101, payload 0/1/37 B), erase(id), get(id, stored/other second), readNextTail, restart on shard 0; get(every id) as observer"
 		rep.Assume("in the rotation part, torn images of writes that land inside the 50 MB file itself are not built (the same writes are torn in the core part); images that contain it unchanged are")
 		parts = append(parts, &c09Part{name: "rot", ops: c09RotOps(rotDepth), depth: rotDepth, workers: 4,
 			prefix: []c09Op{{kind: c09Put, shard: 0, sec: 100, size: bigLen}}})
